@@ -269,6 +269,7 @@ func (x *Exec) freshBound(hint string, s Sort) *Term {
 // ---------- channels ----------
 
 func (x *Exec) onSend(fr *Frame, st *State, in *ssa.Send) {
+	x.escapeValue(st, x.operand(fr, st, in.X))
 	// event only; "at send" obligations are evaluated by the contract layer
 	x.checkEvent(fr, st, "send", in.Chan, x.operand(fr, st, in.X), in.X.Type())
 }
@@ -288,6 +289,11 @@ func (x *Exec) selectOp(fr *Frame, st *State, in *ssa.Select) Value {
 		st.Assume(Or(Eq(idx, BVConst(bigInt(-1), 64)), And(BVCmp("bvsle", lo, idx), BVCmp("bvslt", idx, BVConstU(uint64(n), 64)))))
 	} else {
 		st.Assume(And(BVCmp("bvsle", lo, idx), BVCmp("bvslt", idx, BVConstU(uint64(n), 64))))
+	}
+	for _, s := range in.States {
+		if s.Dir == types.SendOnly {
+			x.escapeValue(st, x.operand(fr, st, s.Send))
+		}
 	}
 	elems := []Value{idx, x.freshSym("select.ok", SBool)}
 	for _, s := range in.States {
